@@ -16,6 +16,21 @@ type KeyCfg struct {
 	Mode   string  `json:"mode"`
 	Field  CertRef `json:"field"`
 	Setter CertRef `json:"setter"`
+	// Chain: the TLS store given through the deprecated field carries a certificate chain — the leaf followed
+	// by an issuer certificate (ChainIssuer), as a store built from "leaf + CA bundle" PEM does.
+	Chain bool `json:"chain,omitempty"`
+}
+
+// ChainIssuer is the second certificate of chain stores (any other certificate will do: nothing verifies the chain).
+var ChainIssuer = CertRef{Key: "U1", Window: "wide"}
+
+// SignerChain tells whether the key the SP signs with comes from a field TLS store that carries a chain.
+func (c SPConfig) SignerChain() bool {
+	pick := c.Sig
+	if c.Sig.None() {
+		pick = c.Enc
+	}
+	return pick.Mode == "tls" && pick.Chain
 }
 
 func (k KeyCfg) None() bool { return k.Mode == "" || k.Mode == "none" }
@@ -86,7 +101,11 @@ func (c SPConfig) Now() time.Time {
 func keyStoreField(k KeyCfg) dsig.X509KeyStore {
 	switch k.Mode {
 	case "tls", "both":
-		return TLSStore(k.Field)
+		st := TLSStore(k.Field)
+		if k.Chain {
+			st.Certificate = append(st.Certificate, ChainIssuer.DER())
+		}
+		return st
 	case "custom":
 		return NewCustomStore(k.Field)
 	}
